@@ -235,6 +235,38 @@ def oracle_c03(ctx: Ctx, n):
                 ctx.count("oracle-C03", 1, nontrivial_key=("setvar", var, op, len(envv)))
                 if exp != got:
                     ctx.finding(f"setvar|{t}|{sorted(envv)}", "set-valued membership differs from packaging", {"marker": t, "env": sorted(envv)}, exp, got)
+    # ... and inside compounds (lock-file context): the rewriting done while parsing must not change which environments are selected
+    set_atoms = [f'"{lit}" {op} {var}' for lit in ("foo", "Foo_Bar", "baz") for op in ("in", "not in") for var in ("extras", "dependency_groups")]
+    plain = ['python_version >= "3.9"', 'sys_platform == "linux"', 'python_full_version < "3.11.2"', 'os_name != "nt"']
+    lock_envs = [{"extras": ex, "dependency_groups": dg, "python_version": pv, "python_full_version": pv + ".1", "sys_platform": sp, "os_name": "posix" if sp == "linux" else "nt"}
+                 for ex in (set(), {"foo"}, {"foo-bar", "baz"}) for dg in (set(), {"foo"}, {"baz", "x"}) for pv, sp in (("3.8", "linux"), ("3.11", "win32"))]
+    for _ in range(60 if ctx.tier == "quick" else 600):
+        k = rng.choice([2, 3, 3, 4])
+        atoms = [rng.choice(set_atoms if rng.random() < 0.7 else plain) for _ in range(k)]
+        t = atoms[0]
+        for a_ in atoms[1:]:
+            t = f"{t} {rng.choice(['and', 'or'])} {a_}" if rng.random() < 0.7 else f"({t}) {rng.choice(['and', 'or'])} {a_}"
+        try:
+            pmk = Marker(t)
+        except Exception:  # noqa: BLE001
+            continue
+        ok, m = safe(ctx, "oracle-C03", lambda: parse(t))
+        if not ok:
+            continue
+        ctx.count("oracle-C03", 1, nontrivial_key=("setvar-compound", shape(m), t.count(" and "), t.count(" or ")))
+        for env in lock_envs:
+            try:
+                exp = pmk.evaluate(dict(env), context="lock_file")
+            except Exception:  # noqa: BLE001
+                continue
+            try:
+                got = m.evaluate(dict(env), context="lock_file")
+            except Exception as ex:  # noqa: BLE001
+                got = repr(ex)
+            if exp != got:
+                ctx.finding(f"setvar-compound|{t}", "a marker over set-valued extras / dependency_groups evaluates differently from packaging (lock-file context)",
+                            {"marker": t, "env": {k_: (sorted(v) if isinstance(v, set) else v) for k_, v in env.items()}}, exp, {"parsed_as": str(m), "value": got})
+                break
 
 
 # ------------------------------------------------------------------------------ C15 / C07 / C12 on derived markers
